@@ -212,3 +212,38 @@ PLAN['C14'] = {
     'assumptions': ['free term algebra for hashes', 'the partial map forest for completion is the from-roots one (TotalRows 63)',
                     'exhaustive only within the stated bounds'],
 }
+
+
+def partial(name, acts, maxn, adds, stack=0, und=0, fr=0, **kw):
+    st = {
+        'kind': 'gen_replay', 'name': name, 'module': 'Partial', 'fam': 'partial', 'spec': 'Spec', 'view': 'View',
+        'constants': {'MaxN': maxn, 'MaxAdds': adds, 'MaxStack': stack, 'MaxUnd': und, 'MaxFr': fr, 'Acts': S(acts)},
+        'invariants': ['TypeOK', 'BoundsOK'],
+    }
+    st.update(kw)
+    return st
+
+
+ALLP = ['mod', 'vrem', 'ingest', 'prune', 'undo', 'fromroots']
+
+# --------------------------------------------------------------------------- C09
+PLAN['C09'] = {
+    'stages': lambda tier, seed: (
+        [partial('partial_all', ALLP, 4, 2, stack=1, und=1, fr=1),
+         partial('partial_5', ['mod', 'vrem', 'prune'], 5, 2)] if tier == 'quick' else
+        [partial('partial_all', ALLP, 5, 3, stack=2, und=2, fr=1),
+         partial('partial_6', ['mod', 'vrem', 'prune', 'undo'], 6, 3, stack=1, und=1)]),
+    'rule': 'spec/Partial.tla: TLC enumerates breadth-first all interleavings of Modify (deleting any subset of the '
+            'remembered leaves, every remember subset of the additions), Verify(remember) and Ingest of any set of live '
+            'leaves, Prune of any set of leaf hashes ever added, Undo and re-creation from the bare roots; after the last '
+            'step the harness dumps CachedLeaves and Nodes of the real partial MapPollard (TotalRows 0/3/63; from-roots '
+            'instance) and checks: leaf index = {Leaf(s) -> PosOf(s) : s in cached}; every stored position holds '
+            'NodeAt(position); StoredLower(cached) within stored within StoredUpper(cached); Prove(cached) = CanonProof; every '
+            'remembered leaf provable alone. TLC checks BoundsOK on the specification (the lower bound suffices to prove '
+            'every subset). Non-trivial: anything but an empty block; distinct by (witness history, step).',
+    'bounds': {'quick': 'all actions: n<=4, adds 0..2, undo depth 1, one from-roots restart; blocks/verify/prune: n<=5',
+               'thorough': 'all actions: n<=5, adds 0..3, undo depth 2; blocks/verify/prune/undo: n<=6'},
+    'exhaustive': {'quick': True, 'thorough': True},
+    'assumptions': ['free term algebra for hashes', 'proofs handed to Verify(remember)/Ingest are the specification\'s canonical ones',
+                    'exhaustive only within the stated bounds'],
+}
